@@ -80,6 +80,8 @@ var witnessDefs = []witnessDef{
 			{Name: "svc0", SDL: "directive @again(n: Int) repeatable on FIELD\ntype Query {\n  a: String\n}\n"},
 			{Name: "svc1", SDL: "type Query {\n  b: String\n}\n"}}}, Perm: []int{0, 1}})
 	}},
+	{ID: "KF-C01-13", Prop: "C01", Query: `{ hero { ... on Human { friend { id name } } ... on Human { friend { name } } } }`},
+	{ID: "KF-C02-13", Prop: "C02", Query: `{ hero { ... on Human { friend { id name } } ... on Human { friend { name } } } }`},
 	{ID: "KF-C01-09", Prop: "C01", Query: `{ hero { y: friend { name friend { age } } friend { name friend { boss { name } } } } }`},
 }
 
